@@ -26,6 +26,10 @@ theorem gens_ok : gensOk sites.length gens = true := by decide
 /-- every Cython kernel call is inside the scope and seeded by an in-scope draw from `self.rng` -/
 theorem kernel_calls_ok : kernelCalls.all kernelCallOk = true := by decide
 
+/-- … and that drawn integer reaches the kernel unchanged: no `or`, no condition on it, no arithmetic, no rebinding
+on the way (also through helpers such as `poisson(…, seed)`) -/
+theorem kernel_seed_passed_unchanged : kernelSeedsUnchanged kernelSeedPaths = true := by decide
+
 /-- every `.pyx` kernel does `srand(seed)` once, before any `rand()` -/
 theorem pyx_kernels_ok : (pyxKernels.all (·.2) && !pyxKernels.isEmpty) = true := by decide
 
